@@ -124,6 +124,47 @@ def check(prog, run):
                        "characters of class %s are encoded as %s, which the lexer does not decode back to the same "
                        "character (each \\uXXXX is decoded on its own, so a surrogate pair becomes two lone surrogates)" % (cls, how))
 
+    # ---- E3 every string the encoder can emit is lexed back as one String token
+    r = run.rule("E3", "every spelling the quoted-string encoder (json.dumps) can emit for one character — verbatim printable / "
+                       "non-ASCII characters, the short escapes \\\" \\\\ \\n \\r \\t \\b \\f, and \\u00xx with LOWER-case hex digits for the "
+                       "other control characters — belongs to the String-token language of the lexer, extracted from "
+                       "Lexer.__next__ by abstract interpretation (language inclusion decided on the product automaton, shortest "
+                       "rejected spelling as witness)", 30)
+    from .. import lexextract, rx
+    from ..spec import lexical
+    A = lexextract.Alphabet(prog)
+    li = lexextract.LexInterp(prog, A)
+    try:
+        limpl = li.token_language()
+    except lexextract.Unsupported as e:
+        raise AnalysisError("C03.E3: cannot extract the lexer: %s" % e)
+    ref = lexical.LexReference(A)
+    Q, BS = '"', "\\"
+    spellings = []
+    for cp in range(0x20):
+        ch = chr(cp)
+        short = {"\n": "n", "\r": "r", "\t": "t", "\b": "b", "\f": "f"}.get(ch)
+        text = (BS + short) if short else (BS + "u%04x" % cp)
+        spellings.append(("U+%04X as %s" % (cp, text), list(text)))
+    spellings.append(("quote as \\\"", [BS, Q]))
+    spellings.append(("backslash as \\\\", [BS, BS]))
+    spellings.append(("printable ASCII verbatim", [sorted(ref.source_no_lt - {Q, BS})]))
+    if ensure_ascii:
+        spellings.append(("non-ASCII as \\uXXXX (lower-case hex)", [BS, "u", list("0123456789abcdef"), list("0123456789abcdef"), list("0123456789abcdef"), list("0123456789abcdef")]))
+    alts = []
+    for label, seq in spellings:
+        items = [ref.S({Q})] + [ref.S(set(x) if isinstance(x, list) else {x}) for x in seq] + [ref.S({Q}), ref.LA(ref.any), ref.RET("String")]
+        alts.append((label, rx.cat(*items)))
+        r.instance(label)
+    W = rx.alt(*[a for _l, a in alts])
+    res = rx.equivalent(rx.alt(limpl, W), limpl)
+    if res is not None:
+        witness, _side = res
+        shown = "".join(a if isinstance(a, str) and len(a) == 1 else "" for a in witness)
+        run.report(r, "%s:ASTPrinter.print_string_value:not-lexed-back(%s)" % (PRINTER, shown.encode("unicode_escape").decode()), psv.where(enc),
+                   "the encoder can print the string token %s, which Lexer.__next__ does not accept as one String token: printing a "
+                   "tree holding that character produces text the parser rejects" % shown.encode("unicode_escape").decode())
+
     # ---- E2 block string guards
     r = run.rule("E2", "_block_string: every subscript of the value is dominated by a non-emptiness test, and the "
                        "single-line form is not chosen when the text ends in a backslash or a quote without a guard", 2)
